@@ -749,12 +749,20 @@ def run_analytic(case):
         p = P.FullBlockZXZPass(mq, perform_scan=o.get('scan', False), perform_extract=o.get('extract', False))
     try:
         run_pass(p, c1)
+    except IndexError as e:
+        if o.get('scan') and o.get('depth', 0) > 0 and not o.get('left', True):
+            r.bad({'pass': 'TreeScanningGateRemovalPass', 'start_from_left': False, 'symptom': 'IndexError', 'via': name}, 'the pass completes',
+                  f'IndexError: {e}', f'{name}(perform_scan, tree_depth>0, start_from_left=False): the inner tree scan raises IndexError (stale cycle index)')
+            return r.out()
+        raise
     except ValueError as e:
         if 'qfactor' in str(e):
             via = 'ExtractDiagonalPass' if o.get('extract') else 'ScanningGateRemovalPass(method=qfactor)'
             r.bad({'pass': name, 'symptom': 'qfactor_not_capable', 'via': via}, 'the pass completes', str(e)[:160],
                   f'{name} with these options instantiates a circuit containing CNOTGate with method=qfactor, which rejects it')
             return r.out()
+        if False:
+            pass
         if 'unitary condition' in str(e):
             r.bad({'pass': name, 'symptom': 'demultiplex_not_unitary', 'via': 'BlockZXZPass.demultiplex'}, 'the pass completes', str(e)[:160],
                   f'{name}: scipy eig of a block with repeated eigenvalues returns non-orthogonal eigenvectors; UnitaryMatrix(V) rejects them')
@@ -1213,7 +1221,17 @@ def run_cosim(case):
     if kind == 'scan':
         line = f'scan {int(left)} 5 {g} {its} {ids_f} {sc}'
     elif kind == 'tree':
-        line = f"tree {case['depth']} 5 {g} {its} {sc}"
+        # which cycle compensation does the source apply?  (read, fail-closed, from get_tree_circs)
+        import inspect
+        src = inspect.getsource(P.TreeScanningGateRemovalPass.get_tree_circs)
+        pars = list(inspect.signature(P.TreeScanningGateRemovalPass.get_tree_circs).parameters)
+        if pars == ['orig_num_cycles', 'circuit_copy', 'cycle_and_ops'] and 'idx_shift = orig_num_cycles - circ.num_cycles' in src:
+            comp = 1                                   # always (the code as it stands, finding C10.T1)
+        elif pars == ['orig_num_cycles', 'circuit_copy', 'cycle_and_ops', 'start_from_left'] and 'if start_from_left:' in src:
+            comp = int(left)                           # guarded (fixes/C10.T1.patch)
+        else:
+            raise RuntimeError('get_tree_circs has neither of the two modelled shapes: ' + str(pars))
+        line = f"tree {comp} {case['depth']} 5 {g} {its} {sc}"
     elif kind == 'exh':
         obs = '[' + ' '.join('[' + ' '.join('[' + ' '.join(map(str, ids)) + ']' for ids in b) + ']' for b in batches) + ']'
         line = f'exh 5 {g} {obs} {sc}'
@@ -1372,26 +1390,46 @@ def do_task(task):
 # ======================================================================================================
 # main-process side
 # ======================================================================================================
+PROVED, SKEL, TESTED = 'proved', 'skeleton-proved (oracle-relative)', 'tested-only'
 CATALOGUE = {
-    # class name: (family, status)
-    'CHToCNOTPass': 'proved', 'CNOTToCHPass': 'proved', 'CNOTToCYPass': 'proved', 'CNOTToCZPass': 'proved',
-    'CYToCNOTPass': 'proved', 'CZToCNOTPass': 'proved', 'SwapToCNOTPass': 'proved',
-    'U3Decomposition': 'tested-only', 'ZXZXZDecomposition': 'tested-only',
-    'GeneralSQDecomposition': 'tested-only',
-    'Rebase2QuditGatePass': 'tested-only', 'AutoRebase2QuditGatePass': 'tested-only',
-    'ScanningGateRemovalPass': 'tested-only', 'TreeScanningGateRemovalPass': 'tested-only',
-    'ExhaustiveGateRemovalPass': 'tested-only', 'IterativeScanningGateRemovalPass': 'tested-only',
-    'SubstitutePass': 'tested-only', 'ExtractDiagonalPass': 'tested-only',
-    'QSDPass': 'tested-only', 'MGDPass': 'tested-only', 'FullQSDPass': 'tested-only',
-    'BlockZXZPass': 'tested-only', 'FullBlockZXZPass': 'tested-only',
-    'WalshDiagonalSynthesisPass': 'tested-only', 'QFASTDecompositionPass': 'tested-only',
-    'QPredictDecompositionPass': 'tested-only', 'PermutationAwareSynthesisPass': 'tested-only',
-    'CompressPass': 'tested-only', 'UnfoldPass': 'tested-only', 'GroupSingleQuditGatePass': 'tested-only',
-    'ExtendBlockSizePass': 'tested-only', 'FillSingleQuditGatesPass': 'tested-only', 'ToU3Pass': 'tested-only',
-    'ToVariablePass': 'tested-only', 'BlockConversionPass': 'tested-only', 'StructureAnalysisPass': 'tested-only',
-    'RecordStatsPass': 'tested-only', 'UpdateDataPass': 'tested-only', 'SetRandomSeedPass': 'tested-only',
-    'LogPass': 'tested-only', 'LogErrorPass': 'tested-only',
+    # class name: status.  proved = theorem over a model tied to the code (translator or correspondence), no oracle;
+    # skeleton-proved = theorem holds for every behaviour of the numerical oracles it is relative to
+    'CHToCNOTPass': PROVED, 'CNOTToCHPass': PROVED, 'CNOTToCYPass': PROVED, 'CNOTToCZPass': PROVED,
+    'CYToCNOTPass': PROVED, 'CZToCNOTPass': PROVED, 'SwapToCNOTPass': PROVED,
+    'U3Decomposition': TESTED, 'ZXZXZDecomposition': SKEL,
+    'GeneralSQDecomposition': TESTED,
+    'Rebase2QuditGatePass': SKEL, 'AutoRebase2QuditGatePass': SKEL,
+    'ScanningGateRemovalPass': SKEL, 'TreeScanningGateRemovalPass': SKEL,
+    'ExhaustiveGateRemovalPass': SKEL, 'IterativeScanningGateRemovalPass': SKEL,
+    'SubstitutePass': SKEL, 'ExtractDiagonalPass': TESTED,
+    'QSDPass': SKEL, 'MGDPass': TESTED, 'FullQSDPass': TESTED,
+    'BlockZXZPass': SKEL, 'FullBlockZXZPass': TESTED,
+    'WalshDiagonalSynthesisPass': TESTED, 'QFASTDecompositionPass': TESTED,
+    'QPredictDecompositionPass': TESTED, 'PermutationAwareSynthesisPass': TESTED,
+    'CompressPass': PROVED, 'UnfoldPass': PROVED, 'GroupSingleQuditGatePass': PROVED,
+    'ExtendBlockSizePass': TESTED, 'FillSingleQuditGatesPass': TESTED, 'ToU3Pass': SKEL,
+    'ToVariablePass': SKEL, 'BlockConversionPass': SKEL, 'StructureAnalysisPass': TESTED,
+    'RecordStatsPass': TESTED, 'UpdateDataPass': TESTED, 'SetRandomSeedPass': TESTED,
+    'LogPass': TESTED, 'LogErrorPass': TESTED,
 }
+THEOREMS_OF = {
+    'ScanningGateRemovalPass': 'C10_scan_invariant C10_removal_monotone C10_scan_left_intended C10_scan_left_never_raises; co-simulated',
+    'TreeScanningGateRemovalPass': 'C10_treescan_invariant C10_treescan_right_intended_refuted; co-simulated',
+    'ExhaustiveGateRemovalPass': 'C10_exhaustive_invariant; co-simulated (structure de-duplication replayed from the trace)',
+    'IterativeScanningGateRemovalPass': 'C10_iterative_invariant C10_iterative_terminates; co-simulated on the unpartitioned branch',
+    'SubstitutePass': 'C10_substitute_invariant; decision skeleton only (replace_gate is an oracle), no co-simulation',
+    'Rebase2QuditGatePass': 'C10_rebase_post; co-simulated', 'AutoRebase2QuditGatePass': 'C10_rebase_post; co-simulated',
+    'ZXZXZDecomposition': 'C10_zxzxz_form (all angles); parameter extraction (det, phase, arctan2) is the oracle; gate sequence read by the translator',
+    'QSDPass': 'C10_qsd_demultiplex C10_qsd_recombine; qubit shifts and multiplexor angle encodings not modelled',
+    'BlockZXZPass': 'C10_qsd_demultiplex (same demultiplexing step); A/B/C construction not modelled',
+    'UnfoldPass': 'C10_unfold_*; list model tied by correspondence', 'CompressPass': 'C10_compress_order; list model tied by correspondence',
+    'GroupSingleQuditGatePass': 'C10_group_single_timeline; per-qudit model tied by correspondence',
+    'ToU3Pass': 'C10_convert_timelines C10_convert_preserves_unitary (calc_params contract = oracle)',
+    'ToVariablePass': 'C10_convert_timelines C10_convert_preserves_unitary (get_params contract = oracle)',
+    'BlockConversionPass': 'C10_convert_timelines C10_convert_preserves_unitary (get_unitary/get_params contract = oracle)',
+}
+for _n in ('CHToCNOTPass', 'CNOTToCHPass', 'CNOTToCYPass', 'CNOTToCZPass', 'CYToCNOTPass', 'CZToCNOTPass', 'SwapToCNOTPass'):
+    THEOREMS_OF[_n] = f'C10_rule_{_n} C10_rule_{_n}_post C10_rules_embedded_upto5 C10_rule_pass_preserves_unitary; translator + correspondence'
 
 
 def gen_tasks(ctx, rng, scale=1.0, only=None):
@@ -1406,7 +1444,7 @@ def gen_tasks(ctx, rng, scale=1.0, only=None):
         if only is None or case.get('p') in only:
             T.append(dict(fam=fam, case=case, timeout=timeout))
     # (iii) oracle injection
-    for kind, q, t in [('scan', 60, 800), ('tree', 60, 800), ('exh', 25, 300), ('iter', 25, 300)]:
+    for kind, q, t in [('scan', 50, 800), ('tree', 50, 800), ('exh', 20, 300), ('iter', 20, 300)]:
         for _ in range(n(q, t)):
             c = gen_cosim_case(rng, kind, th)
             if only is None or c['p'] in only:
@@ -1534,6 +1572,7 @@ def gen_tasks(ctx, rng, scale=1.0, only=None):
 
 def _worker_loop(conn):
     _setup()
+    conn.send('ready')
     while True:
         try:
             task = conn.recv()
@@ -1551,18 +1590,21 @@ def run_pool(tasks, procs=14):
     from multiprocessing.connection import wait
     if not tasks:
         return []
+    _setup()                     # import bqskit once, before forking (workers inherit the loaded modules)
     mpc = mp.get_context('fork')
     order = sorted(range(len(tasks)), key=lambda i: -tasks[i].get('timeout', 60))
     pending = list(reversed(order))
     out = [None] * len(tasks)
     workers = {}      # conn -> [proc, task index, deadline]
+    starting = set()
 
     def spawn():
         a, b = mpc.Pipe()
         pr = mpc.Process(target=_worker_loop, args=(b,), daemon=True)
         pr.start()
         b.close()
-        workers[a] = [pr, None, None]
+        workers[a] = [pr, None, time.time() + 600]      # until it reports ready
+        starting.add(a)
         return a
 
     def feed(conn):
@@ -1593,17 +1635,24 @@ def run_pool(tasks, procs=14):
                 out[i] = dict(case=case, fam=tasks[i]['fam'], t=0, info={}, nontrivial=True, issues=[dict(
                     sig={'pass': case.get('p'), 'symptom': 'process_died'}, expected='the pass completes',
                     observed=f'worker process exit code {pr.exitcode}', what=f"{case.get('p')}: the process running the pass died")])
-        feed(spawn())
+        if pending:
+            spawn()
 
     for _ in range(min(procs, len(tasks))):
-        feed(spawn())
+        spawn()
     while workers:
         ready = wait(list(workers), timeout=1.0)
         for conn in ready:
             try:
                 res = conn.recv()
             except (EOFError, OSError):
+                starting.discard(conn)
                 lost(conn, 'died')
+                continue
+            if conn in starting:
+                starting.discard(conn)
+                workers[conn][2] = None
+                feed(conn)
                 continue
             out[workers[conn][1]] = res
             workers[conn][1] = None
@@ -1611,9 +1660,11 @@ def run_pool(tasks, procs=14):
         now = time.time()
         for conn in list(workers):
             pr, i, dl = workers[conn]
-            if i is not None and dl is not None and now > dl:
+            if dl is not None and now > dl:
+                starting.discard(conn)
                 lost(conn, 'hard_timeout')
-            elif i is not None and not pr.is_alive() and conn not in ready:
+            elif not pr.is_alive() and conn not in ready:
+                starting.discard(conn)
                 lost(conn, 'died')
     return out
 
@@ -1968,8 +2019,9 @@ def run(ctx: vf.Ctx):
     if ctx.broken and not ctx.violations:
         deep = gen_tasks(ctx, random.Random(ctx.seed + 1), scale=6.0, only=set(RULES) | {'ZXZXZDecomposition', 'U3Decomposition'})
         absorb(ctx, run_pool(deep), stats)
-    ctx.cov['passes'] = {k: dict(status=CATALOGUE[k], **{a: (round(b, 1) if isinstance(b, float) else b) for a, b in stats.get(k, {}).items()})
+    ctx.cov['passes'] = {k: dict(status=CATALOGUE[k], theorems=THEOREMS_OF.get(k, ''), **{a: (round(b, 1) if isinstance(b, float) else b) for a, b in stats.get(k, {}).items()})
                          for k in CATALOGUE}
+    ctx.cov['status_counts'] = {st: sum(1 for v in CATALOGUE.values() if v == st) for st in (PROVED, SKEL, TESTED)}
     ctx.cov['catalogue_size'] = len(CATALOGUE)
     ctx.cov['uncovered'] = [k for k in CATALOGUE if not stats.get(k, {}).get('cases')]
     ctx.cov['oracle_wall_s'] = round(time.time() - t0, 1)
